@@ -37,6 +37,7 @@ ASSUMPTIONS = [
     "engine B: weight vector concrete per query (all vectors in {0..W}^k, W=4 k<=3 quick; W=6 k<=4 thorough, plus the vectors used in the repository); population length and target size symbolic integers with 1 <= target <= population <= 10^5",
     "engine A: target k symbolic in [1,4], population m in [k,5]; population passed as list, Population object and one-shot iterator; combinator nestings from a fixed list of shapes",
     "precondition: at least one weight positive (an all-zero weight vector has no shares to compute)",
+    "the default GP step (tournaments of 5) and the thorough tier's whole-run obligations take their integer draws from a fixed deterministic stream (the picks multiply the paths beyond exhaustion and the counts do not depend on them); probability gates (mutation / crossover rates) stay forked",
     "ParameterlessPopulationInitializer (adaptive / parameterless GP) is driven by a wall-clock budget, not by the requested size: outside the claim like every time budget; AjustPopulationSizeStep deliberately changes the configured size between generations",
 ]
 
@@ -250,6 +251,7 @@ def h_step(ctx: Ctx, cfg):
     ctx.note("k", k)
     ctx.note("m", m)
     rnd = FreshRandom(ctx, coarse=bool(cfg.get("twice")))
+    rnd.fixed = bool(cfg.get("fixed_random"))  # integer draws from a fixed stream (tournaments of 5: the picks are not what the count depends on)
     out = list(step.apply(problem, SequentialEvaluator(), rep, rnd, pop, k, 1))
     ctx.reached()
     ctx.require(len(out) == k, "size:step-does-not-yield-exactly-k", lambda: {"step": cfg["step"], "form": cfg.get("form", "list"), "k": k, "population": m, "yielded": len(out)})
@@ -309,7 +311,9 @@ def h_generations(ctx: Ctx, cfg):
         step = ParallelStep([ElitismStep(), NoveltyStep(), inner], [e, n, P - n - e])
     from vf.props.c14 import Counting, LoopFuel
 
-    gp = GeneticProgramming(problem, Counting(EvaluationBudget(cfg["budget"]), fuel=cfg["budget"] + 2), rep, FreshRandom(ctx), population_size=P, step=step)
+    rnd = FreshRandom(ctx)
+    rnd.fixed = bool(cfg.get("fixed_random"))
+    gp = GeneticProgramming(problem, Counting(EvaluationBudget(cfg["budget"]), fuel=cfg["budget"] + 2), rep, rnd, population_size=P, step=step)
     sizes = {}
     orig = Population.__init__
 
@@ -357,12 +361,12 @@ def obligations(tier: str):
                 k_, m_ = 2, 2
             if form == "repeats" and st in ("mutation", "crossover"):
                 k_, m_ = (3, 3) if T else (2, 3)  # the repeat pattern multiplies the per-individual mutation draws
-            add("step", f"step_{st}_{form}", step=st, form=form, K=k_, M=m_, fitness="sym" if st in ("elitism",) else "const")
+            add("step", f"step_{st}_{form}", step=st, form=form, K=k_, M=m_, fitness="sym" if st in ("elitism",) else "const", fixed_random=(st == "default"))
     add("step", "step_randomize_parallel_two_generations", step="randomize_parallel_fixed", form="list", K=3, M=3, twice=True, timeout=300)
     add("step", "step_feedback_parallel_two_generations", step="feedback_parallel", form="list", K=2, M=2, twice=True, timeout=300)
     for init in ("standard", "generic", "halfandhalf", "full", "grow", "pigrow", "ramped", "inject"):
         add("initializer", f"init_{init}", init=init, K=3 if init in ("inject", "grow", "pigrow") and not T else K)
     if T:
-        add("generations", "gp_generations_default_step", step="default", P=2, budget=4)
-    add("generations", "gp_generations_simplegp_step", step="simplegp", P=3 if T else 2, Pmin=2, budget=6 if T else 3)
+        add("generations", "gp_generations_default_step", step="default", P=2, budget=4, fixed_random=True)
+    add("generations", "gp_generations_simplegp_step", step="simplegp", P=3 if T else 2, Pmin=2, budget=5 if T else 3, fixed_random=T)
     return obs
